@@ -499,6 +499,11 @@ func gen(c *harness.C) []harness.Case {
 			plans = append(plans, plan{cfg{mode: m, n: 4, t: 3, idset: []uint16{2, 3, 4, 5}}, 0}, plan{cfg{mode: m, n: 4, t: 2, idset: []uint16{10, 20, 30, 40}}, 0})
 		}
 	}
+	// identifier 0 and the top of the range are identifiers like any other
+	for _, m := range []string{"loud", "silent"} {
+		plans = append(plans, plan{cfg{mode: m, n: 3, t: 2, idset: []uint16{0, 1, 2}}, 0}, plan{cfg{mode: m, n: 3, t: 2, idset: []uint16{0, 256, 65535}}, 0})
+	}
+	cases = append(cases, directCases(c.Thorough())...)
 	for _, p := range plans {
 		cases = append(cases, dfsCase(p.k, p.bound, 0, 0, true))
 		if p.bound > 0 {
